@@ -155,6 +155,29 @@ func faultMain(x *X) {
 	}
 	if o.CancelStep != 0 {
 		x.Probe("cancelled")
+		// where the rest of the query stood when the cancellation landed
+		if o.ParkedAtCancel["conc.next.recv"] > 0 {
+			x.Probe("cancel-while-consumer-before-buffer-receive")
+		}
+		if o.ParkedAtCancel["conc.pull.send"] > 0 {
+			x.Probe("cancel-while-pull-before-buffer-send")
+		}
+		if o.ParkedAtCancel["worker.loop"]+o.ParkedAtCancel["worker.task"] > 0 {
+			x.Probe("cancel-while-workers-active")
+		}
+		if o.ParkedAtCancel["coal.next.lock"] > 0 {
+			x.Probe("cancel-while-merge-pending")
+		}
+	}
+	if op.ClientCancelStep > 0 && o.CancelStep != 0 {
+		if op.ClientClose {
+			x.R.Fired["client-close"]++
+		} else {
+			x.R.Fired["client-cancel"]++
+		}
+	}
+	if op.DeadlineMs > 0 && o.CtxDoneAtEnd {
+		x.R.Fired["deadline"]++
 	}
 	x.R.Nontrivial = nfired > 0 || (o.CancelStep != 0 && o.ExecEnd != 0)
 
